@@ -328,10 +328,12 @@ package jet
 //@   loop 0 invariant SameS(st) && RtOK(st)
 //@   ensures [balanced] SameS(st)
 //@ func (*Runtime).evalSafeWriter
-//@   props C07 C13 C10
+//@   props C07 C13 C10 C01
 //@   nocrash
 //@   requires RtOK(st)
 //@   modifies @Interp
+//@   callsite fastprinter.PrintValue * requires [safewriter-output-bypasses-the-escaper-once] {C01} istype(w, "*escapeWriter") && as(w, "*escapeWriter").rawWriter == st.escapeeWriter.Writer && fresh(as(w, "*escapeWriter"))
+//@   callsite fastprinter.PrintValue count 2
 //@   loop 0 invariant SameS(st) && RtOK(st)
 //@   loop 1 invariant SameS(st) && RtOK(st)
 //@   ensures [balanced] SameS(st)
@@ -342,10 +344,11 @@ package jet
 //@   modifies @Interp
 //@   ensures [balanced] SameS(st)
 //@ func (*Runtime).evalPipelineExpression
-//@   props C07 C13 C10
+//@   props C07 C13 C10 C01 C14
 //@   nocrash
 //@   requires RtOK(st)
 //@   modifies @Interp
+//@   callsite (*Runtime).evalCommandPipeExpression 0 requires [writer-command-must-be-last] {C01,C14} !caller.safeWriter
 //@   loop 0 invariant SameS(st) && RtOK(st)
 //@   ensures [balanced] SameS(st)
 //@ func (*Runtime).evaluateArgs
@@ -446,6 +449,11 @@ package jet
 //@   loop 1 invariant [ctx] context == old(st.context)
 //@   loop 1 invariant [scope] ite(isLet, st.scope.parent != nil && ite(inNewScope, st.scope.parent.parent == old(st.scope), st.scope.parent == old(st.scope)), ite(inNewScope, st.scope.parent == old(st.scope), st.scope == old(st.scope)))
 //@   loop 0 monotone [return-value-kept] {C09} RvValid(returnValue)
+//@   callsite fastprinter.PrintValue 0 requires [action-output-goes-through-the-escaping-writer] {C01} w == iface(st.escapeeWriter, "*escapeeWriter")
+//@   callsite fastprinter.PrintValue count 1
+//@   callsite (io.Writer).Write 0 requires [text-is-written-raw-and-unmodified] {C01,C03} w == st.escapeeWriter.Writer && b == caller.node.Text
+//@   callsite (io.Writer).Write count 1
+//@   callsite (Renderer).Render count 1
 //@   ensures [list-balanced-scope] st.scope == old(st.scope)
 //@   ensures [list-balanced-context] st.context == old(st.context)
 //@   ensures [list-balanced-content] st.content == old(st.content)
@@ -457,6 +465,9 @@ package jet
 //@   requires RtOK(st)
 //@   modifies @Interp
 //@   ensures [try-leaves-no-trace] SameS(st)
+//@   callsite (*Runtime).executeList 0 requires [try-body-renders-into-a-fresh-buffer] {C13,C01} st.escapeeWriter.Writer == iface(caller.buf, "*bytes.Buffer") && fresh(caller.buf) && st.escapeeWriter == old(st.escapeeWriter)
+//@   callsite io.Copy 0 requires [buffer-copied-only-after-success] {C13} dst == old(st.escapeeWriter.Writer) && src == iface(caller.buf, "*bytes.Buffer") && !panicking()
+//@   callsite io.Copy count 1
 
 //@ func (*Runtime).executeInclude
 //@   props C09 C07 C13
@@ -554,3 +565,47 @@ package jet
 //@   ensures [includeIfExists-existing-renders-once] ncalls("(*Runtime).executeList") == 1 ==> result == hiddenTrue
 //@   callsite (*Runtime).executeList 0 requires [includeIfExists-runs-root-with-its-blocks] list == RootOf(lastret("(*Set).GetTemplate", 0)).Root && st.scope.blocks == lastret("(*Set).GetTemplate", 0).processedBlocks && st.scope.parent == old(a.runtime.scope) && st.escapeeWriter.Writer == old(a.runtime.escapeeWriter.Writer)
 //@   callsite (*Runtime).executeList count 1
+
+// ---- C01: every rendered value is escaped exactly once; only SafeWriters bypass ---------------------------
+
+// the configured escaper / a SafeWriter in command position: an event on the output trace
+//@ func field:Set.escapee
+//@   trusted user-supplied SafeWriter (default template.HTMLEscape): writes to w only
+//@   params w, b
+//@   modifies ghost T
+//@   ensures T == EvEsc(old(T), callee, w, b)
+//@ func field:escapeWriter.safeWriter
+//@   trusted user-supplied SafeWriter
+//@   params w, b
+//@   modifies ghost T
+//@   ensures T == EvEsc(old(T), callee, w, b)
+
+//@ func (*escapeeWriter).Write
+//@   props C01
+//@   requires w != nil && w.set != nil
+//@   modifies ghost T
+//@   ensures [escaped-exactly-once] T == ite(w.set.escapee == nil, EvWrite(old(T), w.Writer, b), EvEsc(old(T), w.set.escapee, w.Writer, b))
+
+//@ func (*escapeWriter).Write
+//@   props C01
+//@   requires w != nil && w.safeWriter != nil
+//@   modifies ghost T
+//@   ensures [safewriter-applies-its-own-escaping-to-the-raw-writer] T == EvEsc(old(T), w.safeWriter, w.rawWriter, b)
+
+//@ func unsafePrinter
+//@   props C01
+//@   modifies ghost T
+//@   ensures [raw-writes-verbatim] T == EvWrite(old(T), w, b)
+
+//@ func NewSet
+//@   props C01 C16
+//@   nocrash
+//@   modifies *
+//@   loop 0 invariant s != nil
+
+//@ frame {C01} stores Runtime.escapeeWriter only-in init$1
+//@ frame {C01} stores escapeeWriter.Writer only-in (*Template).Execute, (*Runtime).executeTry, init#1$4
+//@ frame {C01} stores escapeeWriter.set only-in (*Template).Execute
+//@ frame {C01} stores Set.escapee only-in NewSet, WithSafeWriter
+//@ frame {C01} loads escapeeWriter.Writer only-in (*escapeeWriter).Write, (*Runtime).executeList, (*Runtime).evalSafeWriter, (*Runtime).executeTry, init#1$4, jsonRenderer
+//@ frame {C01} calls fastprinter.PrintValue only-in (*Runtime).executeList, (*Runtime).evalSafeWriter
